@@ -1,6 +1,7 @@
 from operator import xor
 
 import numpy as np
+from pb_bss import _verif
 from cached_property import cached_property
 from dataclasses import dataclass
 
@@ -187,6 +188,7 @@ class CBMMTrainer:
         for iteration in range(iterations):
             if model is not None:
                 affiliation = model.predict(y, affiliation_eps=affiliation_eps)
+                if _verif.enabled: _verif.emit('estep', trainer=self, iteration=iteration, model=model, affiliation=affiliation, quadratic_form=None)
 
                 if inline_permutation_aligner is not None:
                     affiliation = apply_inline_permutation_alignment(
@@ -194,6 +196,7 @@ class CBMMTrainer:
                         weight_constant_axis=weight_constant_axis,
                         aligner=inline_permutation_aligner,
                     )
+                    if _verif.enabled: _verif.emit('align', trainer=self, iteration=iteration, affiliation=affiliation, quadratic_form=None)
 
             model = self._m_step(
                 y,
@@ -201,6 +204,7 @@ class CBMMTrainer:
                 saliency=saliency,
                 weight_constant_axis=weight_constant_axis,
             )
+            if _verif.enabled: _verif.emit('mstep', trainer=self, iteration=iteration, model=model, affiliation=affiliation, quadratic_form=None)
 
         return model
 
